@@ -282,6 +282,17 @@ def main(mod, argv):
     nincon = len(total.inconclusive)
     if nincon > max(3, total.evaluations // 100):
         reasons.append('%d cases timed out' % nincon)
+    # discards that depend on what the code under test did (as opposed to what the generator or the references
+    # did) are zero or nearly zero on the unchanged tree; many of them mean the run decided little
+    engine_side = sum(n for k, n in total.discards.items()
+                      if k.split(':')[0] in ('library_rejects', 'solo_run_failed', 'thread_did_not_finish', 'child_timeout',
+                                             'subprocess_timeout', 'cli_timeout', 'recursion', 'engine_recursion_depth',
+                                             'clause_too_large', 'too_large'))
+    if engine_side > max(5, total.evaluations // 25):
+        reasons.append('%d cases were discarded because of what the code under test did (%s)' % (
+            engine_side, ', '.join(sorted(k for k in total.discards if k.split(':')[0] in (
+                'library_rejects', 'solo_run_failed', 'thread_did_not_finish', 'child_timeout', 'subprocess_timeout',
+                'cli_timeout', 'recursion', 'engine_recursion_depth', 'clause_too_large', 'too_large')))))
     od = total.counters.get('oracle_disagreement', 0)
     if od > max(2, total.evaluations // 1000):
         reasons.append('reference interpreters disagree on %d cases' % od)
